@@ -20,7 +20,8 @@ SHARDS = {"quick": 1, "thorough": 16}
 NAMES = ["user_id", "uid", "Zeta", "alpha", "Beta", "_id", "a", "B", "b", "a_b", "aB", "A1", "country", "device", "z9", "Z"]
 SALTS_ASCII = ["x" * 70 + "_v1", "campaign-2024-q3-checkout-button-colour-test-for-returning-customers-v12", "007", "00", "0042", "1.50", "1e3",
                "1_000", "12", "-3", " 7", "inf", "nan", "0x10", "True", "None", "3", "0.0", " lead", "trail ", "\ttab", " ", "  ", "a  b", "x\t", "", "s", "exp-2024", "A B", "csdvs887", "it's", 'say "hi"', "C:\\temp\\new", "a\\", "%s{0}", "#x//y", "/* c */"]
-SALTS_UNI = ["é", "jose\u0301", "日本語", "salt-\U0001f600", "ß", "İ", "\u00a0x", "x\u3000", "\u2126", "\ufb01", "\uff21"]
+SALTS_UNI = ["é", "jose\u0301", "日本語", "salt-\U0001f600", "ß", "İ", "\u00a0x", "x\u3000", "\u2126", "\ufb01", "\uff21",
+             "prix_d\u2019\u00e9t\u00e9_2024", "\u2018q\u2019", "\u201cq\u201d", "men\u2019s", "a\u2013b", "a\u2014b", "\u22121", "\u00abq\u00bb", "a\u2032", "\u00b4a", "x\u200by", "\u00ad"]
 
 
 @st.composite
@@ -179,6 +180,8 @@ def judge_full(case):
             if ev is None or not case["live"]:
                 ev = sut.evaluator_mod().ExperimentEvaluator(text)
             else:
+                if len(text) % 3 == 0:
+                    common.refused_deploy(ev, text)
                 ev.recompile(text)
         except Exception as e:
             viol.append("grammatical experiment does not compile: %s: %s | %s" % (type(e).__name__, e, text))
@@ -243,6 +246,13 @@ def fixed_cases():
             inputs = [M.enc_inputs({n: v for n in names}) for v in vals if not isinstance(v, (list, tuple))]
             inputs += [M.enc_inputs({n: "" for n in names})] * 4  # the same empty key again and again
             yield {"prog": prog, "inputs": inputs}
+    # every catalogue salt and every hostile-but-legal string, as the salt and as a splitter value
+    for i, salt in enumerate(SALTS_ASCII + SALTS_UNI + gen.TRICKY_STRS):
+        if any(c in salt for c in M.LINE_BREAKS) or ('"' in salt and "'" in salt):
+            continue
+        body = M.ret([(M.lit_str("g%d" % j), "1") for j in range(32)])
+        prog = M.program("exp", body, salt=salt, splitters=["uid"], salt_q="'" if '"' in salt else '"')
+        yield {"prog": prog, "inputs": [M.enc_inputs({"uid": v}) for v in ("u%d" % i, salt, i)]}
 
 
 KNOWN_ANSWERS = [{"s": s} for s in list(refbucket.RFC1321) + ["unit-3373044025", "unit-5155129577", "unit-7940567911"]]
